@@ -157,6 +157,24 @@ func selftest(prop string, rep *core.Report) {
 			}
 		}
 	}
+	// behaviour-preserving variants: must raise nothing beyond what the tree itself raises
+	bdirs, _ := filepath.Glob(filepath.Join(core.VerifDir(), "benign", "*", "meta.json"))
+	sort.Strings(bdirs)
+	nSeeded := len(jobs)
+	for _, mf := range bdirs {
+		b, err := os.ReadFile(mf)
+		if err != nil {
+			continue
+		}
+		var sm seedMeta
+		if json.Unmarshal(b, &sm) == nil && sm.Property == prop {
+			jobs = append(jobs, job{filepath.Base(filepath.Dir(mf)), filepath.Join(filepath.Dir(mf), "patch.diff")})
+		}
+	}
+	baseFail := map[string]bool{}
+	for _, o := range rep.Failing() {
+		baseFail[o.Key] = true
+	}
 	self, _ := os.Executable()
 	type res struct {
 		job
@@ -186,8 +204,40 @@ func selftest(prop string, rep *core.Report) {
 	wg.Wait()
 	killed, skipped := 0, 0
 	var list []string
-	for _, rs := range results {
+	for i, rs := range results {
 		key := fmt.Sprintf("%s.selftest/%s", prop, rs.name)
+		if i >= nSeeded {
+			// benign variant
+			key = fmt.Sprintf("%s.selftest/benign/%s", prop, rs.name)
+			extra := ""
+			for _, ln := range strings.Split(rs.out, "\n") {
+				if i := strings.Index(ln, "] "); i > 0 && (strings.HasPrefix(ln, "violated") || strings.HasPrefix(ln, "undecided")) {
+					k := ln[i+2:]
+					if j := strings.LastIndex(k, " at "); j > 0 {
+						k = k[:j]
+					}
+					if !baseFail[k] {
+						extra = ln
+					}
+				}
+			}
+			switch {
+			case rs.code == 4:
+				rep.Outside(prop+".selftest", key, "-", "benign patch no longer applies to the current tree")
+				list = append(list, rs.name+": benign, skipped (patch does not apply)")
+			case rs.code != 0 && rs.code != 3:
+				rep.Add(core.Obligation{Rule: prop + ".selftest", Key: key, Pos: "-", Status: core.Violated, Nontrivial: true,
+					Detail: fmt.Sprintf("checker-selftest: benign variant run failed (exit %d): %s", rs.code, strings.TrimSpace(rs.out))})
+			case extra != "":
+				rep.Add(core.Obligation{Rule: prop + ".selftest", Key: key, Pos: "-", Status: core.Violated, Nontrivial: true,
+					Detail: "checker-selftest: the rules raise an alarm on a behaviour-preserving variant (false alarm of the checker, not a defect of the repository): " + extra})
+				list = append(list, rs.name+": benign, FALSE ALARM")
+			default:
+				rep.Ok(prop+".selftest", key, "-", "behaviour-preserving variant raises nothing new")
+				list = append(list, rs.name+": benign, silent")
+			}
+			continue
+		}
 		switch rs.code {
 		case 3:
 			killed++
@@ -208,7 +258,8 @@ func selftest(prop string, rep *core.Report) {
 			list = append(list, rs.name+": error")
 		}
 	}
-	rep.Extra["selftest_mutants"] = len(jobs)
+	rep.Extra["selftest_mutants"] = nSeeded
+	rep.Extra["selftest_benign_variants"] = len(jobs) - nSeeded
 	rep.Extra["selftest_killed"] = killed
 	rep.Extra["selftest_skipped"] = skipped
 	rep.Extra["selftest_results"] = list
